@@ -54,6 +54,51 @@ E["C20"] = dict(
          "external zones that are not ALIGN-aligned; callers pass only live pointers; zone < 2^63.",
     tech="Lean 4 proof (structural invariant by induction over alloc/realloc/free histories) + translator for constants + property oracle + differential correspondence")
 
+E["C03"] = dict(
+    text="Lean 4 theorems (Props/C03.lean, 28) about an executable transcription of lib/rec.c and the NF setter (record line, field values AND the "
+         "(offset,length) spans that truncrec and positional references read through; split_record in blank / single-char / empty / regex (matcher "
+         "parameter) / '?'-quoted modes; recomp_record_fields; truncrec; cached OFS): the coherence invariant (NF = number of fields, every span covers "
+         "its value's text, $0 = line, line = fields joined by the OFS in force at the last rebuild or fields = split of the text last given) holds "
+         "after every history; $i reads the value last given or its split piece, by value and by span; beyond NF reads empty; negative NF rejected "
+         "with the state unchanged; split laws (join of single-char pieces rebuilds the string, blank-mode characterisation and idempotence). "
+         "Tied to the code by an in-process harness that dumps inrec.line and every span after each statement; python shadow oracle and gawk agreement "
+         "on the implementation's own output first, then diff with the Lean driver.",
+    note="Not modelled: the substitution done by sub/gsub itself (property C13), IGNORECASE=1, numstrdetect, allocation failure; regex matching is a parameter (Sane m).",
+    tech="Lean 4 proof (coherence invariant by induction over assignment histories) + property oracle + differential correspondence incl. internal spans")
+E["C11"] = dict(
+    text="Lean 4 theorems (Props/C11.lean, 18) about a model of the __cmp_* family that INTERPRETS tables regenerated from lib/run.c on every run "
+         "(extract/cmp_table.py: the 100-entry dispatch table, each routine's shape base/mirror/alias/ensure-not-equal/reject, inverse op table, the "
+         "operator tests, teq polarity; fails closed): dispatch_correct (decide over the generated table), antisymmetry, trichotomy, a<b iff b>a, "
+         "<= iff < or ==, != iff not ==, == symmetric, === implies ==, cmp is a total preorder on each kind, asort/asorti return a sorted permutation "
+         "for one-kind input; for every float/conversion/case-folding parameter satisfying stated laws (no NaN) and every IGNORECASE/NCMPONSTR setting. "
+         "Harness: hawk_rtx_cmpval and all seven operators at language level on every ordered pair of a 154-value pool under each configuration; the laws "
+         "are evaluated on the real outputs first, then every result is compared with the Lean driver.",
+    note="Number<->string conversion and case folding are parameters instantiated in the driver with the implementation's own answers; hawk_qsortx is "
+         "transcribed only for its insertion-sort path (n<7), larger inputs are checked as sorted permutations (sorted_perm_unique); NaN and teq's pointer shortcut not modelled.",
+    tech="Lean 4 proof over tables regenerated from the source (translator) + laws evaluated on the real code + differential correspondence")
+E["C13"] = dict(
+    text="Lean 4 theorems (Props/C13.lean, 39) about an executable transcription of the string builtins of lib/fnc.c and their str:: twins, generic in the "
+         "element type and in the regex matcher: substr = clamped 1-based range for all Int start/len (fractions truncated), index/rindex = first/last "
+         "occurrence or 0 for every start argument, split laws (single-char join rebuilds the string, count+1 pieces; blank mode), gsub = declarative "
+         "replacement over the leftmost non-overlapping match sequence with count = number of matches for EVERY matcher, the &, \\&, \\\\& template laws, "
+         "match sets RSTART/RLENGTH to the match it reports, tolower/toupper idempotent and length preserving, frame lemmas. Tied to the code by a harness "
+         "rendering each call with every argument type; the regex engine's raw answers are passed to the driver as data (regex semantics is property C06); "
+         "python property oracle + gawk/mawk second opinion on hawk's own output first, then diff with the Lean driver.",
+    note="Not modelled: two-argument sub/gsub on $0 (C03), sub-match groups of match(s,r,arr), IGNORECASE, numeric strings as numeric arguments; UTF-8 codec, CONVFMT "
+         "formatting, case/space tables are environment parameters. Two recorded findings (index of empty in empty; four-backslash template run).",
+    tech="Lean 4 proof (defining equations, generic in the matcher) + property oracle and reference awks + differential correspondence")
+E["C15"] = dict(
+    text="Lean 4 theorems (Props/C15.lean, 26) about the UTF-8 codec parametrised by the utf8_table[] rows regenerated from lib/utf8.c on every run "
+         "(extract/utf8_table.py) and about tio.c's read/write staging: decode(encode c) = c for every c < 65536, encode(decode) on accepted shortest forms, "
+         "decoder never reads out of bounds and is total with a deterministic verdict on arbitrary bytes, whole-string conversion both ways (length = number "
+         "of characters), tio read side independent of the chunking for every well-formed BMP string (any capacity >= 3, any request size), in-bounds on "
+         "arbitrary bytes, write side round trip, byte-string reads/writes are the identity. Harness: every BMP value and all 1-/2-byte sequences through the "
+         "real codec with exact-size heap buffers under ASan, tio under scripted chunkings, CLI runs with every BMP scalar at three alignments to the I/O "
+         "buffers and all 256 byte values; python's codec and schedule-independence as oracle first, then diff with the Lean driver.",
+    note="Overlong forms and 4-byte sequences are accepted/truncated by the C decoder (table's lower column unused) and are modelled as they are; handler errors, the "
+         "flush retry loop and the byte-string value paths in val.c/run.c/fmt are tied by CLI runs only.",
+    tech="Lean 4 proof (round trips, bounds, chunk-independence by induction over chunk lists) over a table regenerated from the source + property oracle + differential correspondence")
+
 claimed = sorted(E)
 checks = []
 for pid in claimed:
